@@ -2,7 +2,7 @@
 intact."""
 from .. import gen, oracle, tt as T
 from .base import Mgr, replay  # noqa: F401
-from ..impl import vname, Spellings
+from ..impl import vname, Spellings, Text
 
 RULE = ('random histories (builds, connectives, collections, swaps) with a rejected call of '
         'every kind injected at every point, dynamic reordering off and on (natural trigger with '
@@ -634,6 +634,82 @@ def full_table_ops(ctx, n, op, extra):
         b._ref = {1: 0}
 
 
+def autoref_rejected_expr(ctx, n):
+    """`add_expr` through dd.autoref rejected AFTER some operands were already built (an
+    undeclared name or a syntax error late in the formula): no Function may stay behind --
+    counts exact for the live handles right after the failure (before any other call), and a
+    collection leaves exactly the nodes the live handles reach.  Model and implementation."""
+    rng = ctx.rng
+    s = ctx.session(f'autoref rejected add_expr n={n}')
+    A = 'a0'
+    order = list(range(n))
+    rng.shuffle(order)
+    s.op(A, 'new', {v: l for v, l in zip(range(n), order)})
+    H = s.impl.handles
+    a = s.impl.amgr[A]
+    names = [vname(i) for i in range(n)]
+    case = lambda: dict(stream=s.label, lines=list(s.lines))  # noqa: E731
+
+    def counts_exact(when):
+        ext = {1: 1}
+        for f in H[A].values():
+            ext[abs(f.node)] = ext.get(abs(f.node), 0) + 1
+        bad = oracle.check_table(a._bdd, external=ext)
+        if bad:
+            ctx.violation('C17:not-canonical', f'{when}: {bad[:3]}', case)
+            return False
+        return True
+    live = {}
+    for _ in range(2):
+        x, y = rng.sample(range(n), 2)
+        sp = ['(', vname(x), rng.choice(['/\\', '\\/', '#', '=>']), vname(y), ')']
+        h = s.op(A, 'add_expr', Spellings(sp))
+        if h is not None:
+            live[h] = oracle.tt_fast(a._bdd, H[A][h].node, names)
+    for k in range(6):
+        x, y, z = (rng.randrange(n) for _ in range(3))
+        good = ['(', vname(x), rng.choice(['\\/', '#']), '~', vname(y), ')']
+        tail = rng.choice([['/\\', 'nope'], ['/\\', 'nope', '/\\', '(', vname(z), '=>', vname(x), ')'],
+                           ['/\\', '(', vname(z), '/\\', 'v%d' % (n + 3), ')'], ['/\\', ')'], ['/\\', vname(z), vname(x)]])
+        if tail[-1] in (')', vname(x)) and 'nope' not in tail:
+            # a syntax error met late: the LR parser has reduced (built) the first operand by
+            # then; the model follows it with the LR driver
+            r = s.op(A, 'add_expr_lr', Text(' '.join(good + tail)))
+        else:
+            r = s.op(A, 'add_expr', Spellings(good + tail))
+        ctx.case(('autoref-rejected-expr', n, k, tuple(tail)), True)
+        ctx.count('autoref-rejected-expr' + (':accepted' if r is not None else ''))
+        if r is not None:
+            ctx.violation('C17:accepted', f'autoref add_expr accepted {" ".join(good + tail)}', case)
+            break
+        if not counts_exact('right after the rejected add_expr'):
+            break
+        for h, t in live.items():
+            if oracle.tt_fast(a._bdd, H[A][h].node, names) != t:
+                ctx.violation('C17:reference-changed', 'a live Function changed', case)
+        if rng.random() < 0.5:
+            s.op(A, 'gc')
+            reach = set()
+            todo = [abs(f.node) for f in H[A].values()]
+            while todo:
+                u = todo.pop()
+                if u in reach or u == 1:
+                    continue
+                reach.add(u)
+                _, v, w = a._bdd._succ[u]
+                todo += [abs(v), abs(w)]
+            extra = set(a._bdd._succ) - reach - {1}
+            if extra:
+                ctx.violation('C17:leak', f'nodes {sorted(extra)[:4]} survive a collection although no live '
+                              'Function reaches them (after a rejected add_expr)', case)
+                break
+    for h in list(live):
+        s.op(A, 'drop', h)
+    s.op(A, 'gc')
+    if set(a._bdd._succ) != {1}:
+        ctx.violation('C17:leak', 'nodes survive after every Function was dropped', case)
+
+
 def autoref_foreign(ctx, n):
     """calls of dd.autoref that are handed a Function of ANOTHER manager (or a non-Function):
     each wrapper must refuse (an exception), and neither manager may change: same tables,
@@ -732,6 +808,8 @@ def run(ctx):
     rng = ctx.rng
     for n in ((2, 3) if q else (2, 3, 3, 4, 4)):
         autoref_foreign(ctx, n)
+    for n in ((3, 4) if q else (2, 3, 3, 4, 4, 5)):
+        autoref_rejected_expr(ctx, n)
     for n in (2, 3, 4):
         for extra in ((1, 3) if q else (1, 2, 3, 5, 8, 13)):
             full_table(ctx, n, extra)
